@@ -24,7 +24,12 @@ Record func := {
   f_inline : list (N * N)
 }.
 
-Definition E_EXIT : N := 50.      (* Error::ProcessExit *)
+Definition E_EXIT : N := 50.      (* Error::ProcessExit(0): step.rs step_out_frame / step_over_any after the
+                                     debugee exited during `continue` (the code went to the on_exit hook only),
+                                     or a command given to a process that is already gone *)
+(* Error::ProcessExit(code) with the real status: tracer.rs single_step when the stepped thread
+   went through PTRACE_EVENT_EXIT (before commit c0ceee6 this was a panic, tracee_ensure_mut) *)
+Definition E_EXIT_CODE (code : N) : N := 1000 + code.
 Definition E_NOFUNC : N := 51.    (* Error::NoFunctionRanges *)
 
 Inductive why := WDone | WSignal (s : N) | WBreakpoint | WExit.
@@ -39,6 +44,7 @@ Section Step.
   Variable funcs : list func.
   Variable units : list (N * N).       (* address ranges covered by units that have debug info *)
   Variable overflow_checks : bool.     (* debug profile: `p -= 1` on p = 0 panics *)
+  Variable exit_code : N.              (* the status the process ends with, if the trace ends *)
 
   Definition in_unit (a : N) : bool := existsb (fun u => in_rng (fst u) (snd u) a) units.
 
@@ -77,13 +83,16 @@ Section Step.
 
   (* ---------------------------------------------------------------- *)
   (* tracer.rs:528 single_step: PTRACE_SINGLESTEP, and again while the pc has not changed.
-     Ok (j, None): the thread is at j after the step; Ok (j, Some s): signal-stop. *)
+     Ok (j, None): the thread is at j after the step; Ok (j, Some s): signal-stop.
+     The stepped instruction ends the process (tracer.rs:540-550 at /repo HEAD, commit c0ceee6):
+     the tracee is gone, the rest is resumed, Err(ProcessExit(code)) with the real status;
+     step.rs on_step_error then fires on_exit(code) and drops breakpoints/watchpoints. *)
   Fixpoint single_step (fuel : nat) (pc0 : N) (j : nat) : res (nat * option N) :=
     match fuel with
     | O => OutOfFuel
     | S f =>
         match tr j with
-        | None => Err E_EXIT
+        | None => Err (E_EXIT_CODE exit_code)
         | Some p =>
             if negb (sig p =? 0) then Ok (j, Some (sig p))
             else if pc p =? pc0 then single_step f pc0 (S j)
@@ -220,7 +229,8 @@ Section Step.
     | _ => fun a => memN a temps
     end.
 
-  (* step.rs:232 step_out_frame + mod.rs:1015 step_out.  [ra] = what Debugee::return_addr gave. *)
+  (* step.rs:273 step_out_frame (HEAD; the CFA filter is stopped_not_above(start_cfa, true), :249)
+     + mod.rs step_out.  [ra] = what Debugee::return_addr gave. *)
   Definition step_out (fuel : nat) (ra : option N) (users : list N) (i : nat) : res outcome :=
     match tr i with
     | None => Err E_EXIT
@@ -468,9 +478,9 @@ Definition model_outcome (c : step_case) : res outcome :=
   let t := trace_of_list (sc_trace c) in
   let fuel := S (length (sc_trace c)) in
   match sc_kind c with
-  | KStepi => stepi t fuel (sc_start c)
-  | KStep => step_in t (sc_rows c) (sc_funcs c) (sc_units c) false fuel (sc_start c)
-  | KNext => step_over t (sc_rows c) (sc_funcs c) (sc_units c) false fuel (sc_ret c) (sc_users c) (sc_start c)
+  | KStepi => stepi t 0 fuel (sc_start c)
+  | KStep => step_in t (sc_rows c) (sc_funcs c) (sc_units c) false 0 fuel (sc_start c)
+  | KNext => step_over t (sc_rows c) (sc_funcs c) (sc_units c) false 0 fuel (sc_ret c) (sc_users c) (sc_start c)
   | KFinish => step_out t fuel (sc_ret c) (sc_users c) (sc_start c)
   end.
 
